@@ -175,6 +175,9 @@ theorem pageEndOf_mapIds (st : PStyle) (xs : List Frag) : pageEndOf st (mapIdsFr
 
 /-! ### `find_earlier_page_break` -/
 
+theorem cutEnd_mapIds (x : Frag) : (x.mapIds f).cutEnd = (x.cutEnd).mapIds f := by
+  cases x <;> simp [Frag.mapIds, Frag.cutEnd]
+
 def EarlierState.mapIds (f : Nat → Nat) (s : EarlierState) : EarlierState :=
   { found := s.found.map (fun kr => (mapIdsFrags f kr.1, kr.2)), prev := s.prev.map (Frag.mapIds f) }
 
@@ -217,7 +220,7 @@ theorem findEarlierGo_mapIds : (xs : List Frag) →
             rw [hfrag]
             cases findEarlierFrag x with
             | none => simp
-            | some xr => simp [mapIdsFrags]
+            | some xr => simp [mapIdsFrags, cutEnd_mapIds]
         · simp [hav, mapIdsFrags]
       | none =>
         simp only [EarlierState.mapIds, Option.map_none, Frag.st_mapIds, Frag.idx_mapIds]
@@ -227,7 +230,7 @@ theorem findEarlierGo_mapIds : (xs : List Frag) →
           rw [hfrag]
           cases findEarlierFrag x with
           | none => simp
-          | some xr => simp [mapIdsFrags]
+          | some xr => simp [mapIdsFrags, cutEnd_mapIds]
 theorem findEarlierFrag_mapIds : (x : Frag) →
     findEarlierFrag (x.mapIds f) = (findEarlierFrag x).map (fun xr => (xr.1.mapIds f, xr.2))
   | .para id idx st n g lines => by
